@@ -35,6 +35,8 @@ func Generate(genseed uint64, stream string, thorough bool) *Case {
 	case "twin":
 		o.Twins = true
 		o.MinNodes = 4
+	case "twinreach":
+		o.MinNodes = 4
 	}
 	var g *dag.Graph
 	for {
@@ -54,7 +56,18 @@ func Generate(genseed uint64, stream string, thorough bool) *Case {
 	}
 	// (twins and Mount are not combined: the wrappers' Mount path takes no per-digest lock)
 	remoteMount := stream == "remote" && genseed%3 == 0
-	if stream != "twin" && stream != "mount" && stream != "sched" && !remoteMount && r.Chance(1, 4) {
+	var twinRoot, twinX int = -1, -1
+	twinTitled := false
+	if stream == "twinreach" {
+		twinTitled = genseed%2 == 0
+		for twinRoot < 0 {
+			twinRoot, twinX = addManifestTwin(r, g, twinTitled)
+			if twinRoot < 0 {
+				g = dag.Random(r, o)
+			}
+		}
+	}
+	if stream != "twin" && stream != "twinreach" && stream != "mount" && stream != "sched" && !remoteMount && r.Chance(1, 4) {
 		addBlobTwin(r, g)
 	}
 	c := &Case{Stream: stream, Graph: g.Encode(), MapRoot: -1, FailNode: -1, GenSeed: genseed, Seed: r.U64(), Thorough: thorough}
@@ -157,6 +170,29 @@ func Generate(genseed uint64, stream string, thorough bool) *Case {
 	c.FindSucc = r.Chance(1, 3)
 
 	switch stream {
+	case "twinreach":
+		// F12 without pre-population: the bytes of a reachable manifest M also occur as a blob X that
+		// another reachable manifest lists as a layer; the destination starts empty (or with unrelated
+		// content).  Digest-keyed destinations (OCI layout; file store when X carries a title) answer
+		// Exists(M) = true once X is pushed -- in either probe order, decided by the schedule.  Memory
+		// and registry destinations are the control group.
+		c.Root = twinRoot
+		c.MapRoot, c.Platform, c.Mount, c.RefFetch = -1, "", false, r.Bool()
+		c.K = common.Pick(r, []int{1, 1, 2, 2, 3, 8, 0})
+		c.Slow = r.Chance(1, 4)
+		for k := range set {
+			delete(set, k)
+		}
+		if twinTitled {
+			c.Titled = []int{twinX}
+			c.Dst = common.Pick(r, []string{"file", "file", "oci", "mem"})
+			c.Src = common.Pick(r, []string{"mem", "oci", "ocire"}) // (a file source would want the same title on its copy of X)
+		} else {
+			c.Dst = common.Pick(r, []string{"oci", "oci", "ocire", "mem", "remote", "file"})
+		}
+		if c.Dst == "remote" && c.Mode == "t" {
+			c.Mode = "r"
+		}
 	case "extended":
 		// ExtendedCopyGraph / ExtendedCopy from a graph source (memory, OCI layout), callbacks nil or
 		// set.  The node is one with several roots above it (e.g. a subject with referrers, a shared
@@ -401,6 +437,82 @@ func addBlobTwin(r *common.Rand, g *dag.Graph) {
 		nd.Bytes, nd.Desc = bs, desc(ix.MediaType, bs)
 		g.Nodes = append(g.Nodes, nd)
 	}
+}
+
+// addManifestTwin appends X = the bytes of an existing manifest M (one with a non-foreign successor)
+// as application/octet-stream, an image manifest A with X as a layer (its descriptor titled when
+// titled is set) and an index R over A and M in either order.  Returns (R, X), or (-1, -1) when the
+// graph has no suitable manifest.
+func addManifestTwin(r *common.Rand, g *dag.Graph, titled bool) (int, int) {
+	var cands, blobs []int
+	for _, n := range g.Nodes {
+		if n.IsManifest() {
+			for _, s := range n.Succ {
+				if !g.Nodes[s].Foreign() {
+					cands = append(cands, n.ID)
+					break
+				}
+			}
+		} else if !n.Foreign() && len(n.Bytes) > 0 {
+			blobs = append(blobs, n.ID)
+		}
+	}
+	if len(cands) == 0 || len(blobs) == 0 {
+		return -1, -1
+	}
+	desc := func(mt string, bs []byte) ocispec.Descriptor {
+		return ocispec.Descriptor{MediaType: mt, Digest: digest.FromBytes(bs), Size: int64(len(bs))}
+	}
+	m := g.Nodes[common.Pick(r, cands)]
+	x := &dag.Node{ID: len(g.Nodes), Kind: dag.KBlob, Bytes: m.Bytes, Desc: desc("application/octet-stream", m.Bytes), Subject: -1, TwinOf: m.ID}
+	g.Nodes = append(g.Nodes, x)
+	cfg := g.Nodes[common.Pick(r, blobs)]
+	am := ocispec.Manifest{MediaType: ocispec.MediaTypeImageManifest, Config: cfg.Desc}
+	am.SchemaVersion = 2
+	xd := x.Desc
+	if titled {
+		xd.Annotations = map[string]string{ocispec.AnnotationTitle: fmt.Sprintf("x-%d.bin", x.ID)}
+	}
+	a := &dag.Node{ID: len(g.Nodes), Kind: dag.KImage, Subject: -1, TwinOf: -1, Succ: []int{cfg.ID, x.ID}}
+	am.Layers = []ocispec.Descriptor{xd}
+	if r.Bool() {
+		l := g.Nodes[common.Pick(r, blobs)]
+		am.Layers = append(am.Layers, l.Desc)
+		a.Succ = append(a.Succ, l.ID)
+	}
+	am.Annotations = map[string]string{"verif.twinreach": fmt.Sprint(r.U64())}
+	a.Annotations = am.Annotations
+	bs, _ := json.Marshal(am)
+	a.Bytes, a.Desc = bs, desc(am.MediaType, bs)
+	g.Nodes = append(g.Nodes, a)
+	ix := ocispec.Index{MediaType: ocispec.MediaTypeImageIndex}
+	ix.SchemaVersion = 2
+	// M is wrapped in 0..2 further indexes: the deeper it sits, the later it is probed, so both orders
+	// (M probed before / after X was pushed) occur
+	top := m.ID
+	for d := r.Intn(3); d > 0; d-- {
+		wx := ocispec.Index{MediaType: ocispec.MediaTypeImageIndex, Manifests: []ocispec.Descriptor{g.Nodes[top].Desc}}
+		wx.SchemaVersion = 2
+		wx.Annotations = map[string]string{"verif.wrap": fmt.Sprint(d, r.U64())}
+		w := &dag.Node{ID: len(g.Nodes), Kind: dag.KIndex, Subject: -1, TwinOf: -1, Succ: []int{top}, Annotations: wx.Annotations}
+		wb, _ := json.Marshal(wx)
+		w.Bytes, w.Desc = wb, desc(wx.MediaType, wb)
+		g.Nodes = append(g.Nodes, w)
+		top = w.ID
+	}
+	members := []int{a.ID, top}
+	if r.Bool() {
+		members = []int{top, a.ID}
+	}
+	rt := &dag.Node{ID: len(g.Nodes), Kind: dag.KIndex, Subject: -1, TwinOf: -1}
+	for _, mm := range members {
+		ix.Manifests = append(ix.Manifests, g.Nodes[mm].Desc)
+		rt.Succ = append(rt.Succ, mm)
+	}
+	bs, _ = json.Marshal(ix)
+	rt.Bytes, rt.Desc = bs, desc(ix.MediaType, bs)
+	g.Nodes = append(g.Nodes, rt)
+	return rt.ID, x.ID
 }
 
 // FromReplay rebuilds the cases of a replay file: either {"case": <Case JSON>} or
